@@ -89,6 +89,17 @@ Theorem C25_trim_spec : forall s,
     /\ (forall c r, trim s = r ++ [c] -> is_space c = false).
 Proof. exact trim_spec. Qed.
 
+(* backend refuses to save some rewritten snapshots: count unchanged, nothing lost *)
+Theorem C25_run_tag_f_no_loss : forall repo sel fail setL addL remL fs',
+  length sel = length repo -> length fail = length repo ->
+  run_tag_f repo sel fail setL addL remL = Done fs' ->
+  length fs' = length repo /\ (forall f, In f fs' -> f <> Lost)
+  /\ exists fs, run_tag repo sel setL addL remL = Done fs /\
+       forall i b f, nth_error fail i = Some b -> nth_error fs i = Some f ->
+                     nth_error fs' i = Some (if b then Same else f).
+Proof. exact run_tag_f_no_loss. Qed.
+
+Print Assumptions C25_run_tag_f_no_loss.
 Print Assumptions C25_split_tag_list_spec.
 Print Assumptions C25_trim_spec.
 Print Assumptions C25_add_tags_spec.
